@@ -94,7 +94,7 @@ def check_roundtrip(ctx: Ctx):
         fs, values, wits, agg = write_file(ctx, log_times)
         rows = fs.files.get("/d/out.tsv")
         base = f"roundtrip:log_times={log_times}"
-        wf = agg_class(ctx.prog).lookup("_save_one_subject")
+        wf = ctx.prog.method(agg_class(ctx.prog), "_save_one_subject")
         width = 1 + len(GROUPS) * (len(KEYS) + (1 if log_times else 0))
         ctx.decide("R18.1", wf, wf.node, base + ":row-width", "header and every row have one cell per (group, metric) plus the subject", rows is not None and all(len(r) == width for r in rows), {"widths": sorted({len(r) for r in rows or []}), "want": width})
         try:
@@ -174,8 +174,10 @@ def check_vocabulary(ctx: Ctx):
     sep = "-"
     names = set()
     f = prog.cls("panoptica_result:PanopticaResult").lookup("__init__")
+    add_name = prog.method(prog.cls("panoptica_result:PanopticaResult"), "_add_metric")
+    add_name = add_name.name if add_name is not None else "_add_metric"
     for c in prog.calls_in(f):
-        if isinstance(c.func, ast.Attribute) and c.func.attr == "_add_metric" and c.args and isinstance(c.args[0], ast.Constant) and isinstance(c.args[0].value, str):
+        if isinstance(c.func, ast.Attribute) and c.func.attr == add_name and c.args and isinstance(c.args[0], ast.Constant) and isinstance(c.args[0].value, str):
             names.add(c.args[0].value)
     for member, rec in metric_registry(prog).items():
         if rec["name"]:
